@@ -401,6 +401,11 @@ def native_sequence(ctx):
     for o in SEQ_OPTS:
         for src in SEQ_SRCS + SEQ_SRCS[::-1]:
             steps.append({'wgsl': src, 'options': o})
+    # validation with different capability sets one after another (a validator kept between calls would answer for the wrong set)
+    pc_src = 'var<push_constant> pc: vec4<f32>;\n@fragment fn f() -> @location(0) vec4<f32> { return pc; }\n'
+    for v in (True, 0, True, 1, 0):
+        steps.append({'wgsl': pc_src, 'options': {'validate': v}})
+        steps.append({'wgsl': SEQ_SRCS[0], 'options': {'validate': v}})
     o = Oracle()
     r = o.seq(steps)
     o.close()
